@@ -47,6 +47,16 @@ def universe(name, nbars):
                     evs.append(EventNBBO(g, c, 3000.0 + 10 * i + 25 * j, 3002.0 + 10 * i + 25 * j))
         return [etf, chain], evs, G, 1e6
     G = days(datetime(2021, 3, 1), nbars)
+    if name == "crash":
+        # one bar in which the margined contract loses 88% of its price: a fully invested account keeps ~12% of its value
+        # (log return below -2), and recovers nine-fold two bars later when still fully invested
+        cs = [ETF("A"), UC("FUT", 2.0, 0.0, 0.25)]
+        px = [96.0, 100.0, 104.0, 12.0, 13.0, 120.0, 124.0, 128.0]
+        evs = []
+        for i, g in enumerate(G):
+            evs.append(EventNBBO(g, cs[0], 64.0 + 4 * i, 66.0 + 4 * i))
+            evs.append(EventNBBO(g, cs[1], px[i], px[i] + 0.25))
+        return cs, evs, G, 65536.0
     if name == "spot+fut":
         cs = [ETF("A"), UC("FUT", 2.0, 0.0, 0.25)]
     elif name == "mult+es":
@@ -298,6 +308,10 @@ def units(tier):
                         if tier == "quick" and uni == "chain" and reward in ("log", "pnl") and L:
                             continue
                         out.append((uni, L, delay, reward, rates, fees, nbars))
+    # extreme single-step returns (|log return| > 2): rewards documented as unclipped must not be clipped
+    for delay in (0, 1):
+        for reward in REWARDS:
+            out.append(("crash", 0, delay, reward, False, False, 6))
     return out
 
 
